@@ -78,6 +78,69 @@ pub fn handle(op: &str, a: &[&str]) -> Option<String> {
                 lat
             ))
         }
+        // `factor_sweep <alg> <lo> <hi>`: every n in [lo, hi) through factor(); the answers are judged
+        // here with naive trial division (independent of yamaquasi): product, order, primality of
+        // every element. answer: `n=<count> bad_product=<k> composite=<k> failure=<k> panic=<k> first=<n|->`
+        "factor_sweep" => {
+            let alg = algo_of(a.first()?)?;
+            let lo: u64 = a.get(1)?.parse().ok()?;
+            let hi: u64 = a.get(2)?.parse().ok()?;
+            let mut prefs = Preferences::default();
+            prefs.verbosity = Verbosity::Silent;
+            let naive_prime = |x: u64| -> bool {
+                if x < 2 {
+                    return false;
+                }
+                let mut d = 2u64;
+                while d * d <= x {
+                    if x % d == 0 {
+                        return false;
+                    }
+                    d += 1;
+                }
+                true
+            };
+            let (mut bad, mut comp, mut fail, mut pan) = (0u64, 0u64, 0u64, 0u64);
+            let mut first: Option<u64> = None;
+            for n in lo..hi {
+                let r = std::panic::catch_unwind(std::panic::AssertUnwindSafe(|| {
+                    factor(n.into(), alg, &prefs)
+                }));
+                let mut isbad = false;
+                match r {
+                    Ok(Ok(v)) => {
+                        let v: Vec<u64> = v.iter().map(|x| x.digits()[0]).collect();
+                        let prod: u128 = v.iter().map(|&x| x as u128).product();
+                        let sorted = v.windows(2).all(|w| w[0] <= w[1]);
+                        let shape_ok = if n == 0 { v == vec![0] } else { prod == n as u128 && sorted };
+                        if !shape_ok {
+                            bad += 1;
+                            isbad = true;
+                        } else if n >= 2 && !v.iter().all(|&x| naive_prime(x)) {
+                            comp += 1;
+                            isbad = true;
+                        }
+                    }
+                    Ok(Err(_)) => {
+                        // a prime input never fails; a failure on composite input is a give-up
+                        fail += 1;
+                        isbad = true;
+                    }
+                    Err(_) => {
+                        pan += 1;
+                        isbad = true;
+                    }
+                }
+                if isbad && first.is_none() {
+                    first = Some(n);
+                }
+            }
+            Some(format!(
+                "n={} bad_product={bad} composite={comp} failure={fail} panic={pan} first={}",
+                hi.saturating_sub(lo),
+                first.map(|x| x.to_string()).unwrap_or("-".into())
+            ))
+        }
         _ => None,
     }
 }
